@@ -15,6 +15,8 @@ import (
 	"sync/atomic"
 	"time"
 
+	"github.com/datastax/cql-proxy/proxy"
+	"github.com/datastax/cql-proxy/proxycore"
 	"github.com/datastax/go-cassandra-native-protocol/message"
 	"github.com/datastax/go-cassandra-native-protocol/primitive"
 	"verifharness/internal/e2e"
@@ -70,7 +72,7 @@ func raceKeys(logs string) []string {
 			}
 			sites = append(sites, site)
 		}
-		if len(sites) >= 2 {
+		if len(sites) >= 2 && !(sites[0] == "?" && sites[1] == "?") { // a race with no frame in cql-proxy is the harness's own
 			a, b := sites[0], sites[1]
 			if b < a {
 				a, b = b, a
@@ -281,6 +283,13 @@ func runRaceChild(op string) string {
 					env.Cluster.Relist(ip)
 					env.Cluster.Event(&message.TopologyChangeEvent{ChangeType: primitive.TopologyChangeTypeNewNode, Address: &primitive.Inet{Addr: netIP(ip), Port: 9042}})
 				}
+			case x < 7 && fams["topo"] && rr.Intn(2) == 0:
+				// the events a topology refresh produces, delivered as the cluster goroutine delivers them, while
+				// clients are walking query plans: a host that is not the last of the list leaves and comes back
+				h := &proxycore.Host{Endpoint: proxycore.NewEndpoint(fmt.Sprintf("%s:%d", env.IPs[rr.Intn(len(env.IPs)-1)], env.Cluster.Port)), DC: "dc1"}
+				proxy.VerifDeliverClusterEvent(env.Proxy, &proxycore.RemoveEvent{Host: h})
+				time.Sleep(time.Duration(1+rr.Intn(8)) * time.Millisecond)
+				proxy.VerifDeliverClusterEvent(env.Proxy, &proxycore.AddEvent{Host: h})
 			case x < 6 && fams["topo"]:
 				if ip != env.IPs[0] {
 					node.Stop()
